@@ -250,6 +250,8 @@ func frameOf(ts uint64, p []byte) []byte {
 	return handFile(p)[7:]
 }
 
+const clockBase = int64(0x00065c0780000000) * 1000 // ns; 2026-09, high timestamp bytes 00 06 5c 07 80
+
 type logCase struct {
 	name    string
 	maxSize int64
@@ -406,7 +408,6 @@ func (h *harness) runLog(lc *logCase) {
 	// virtual clock (wal.go is clockified): entry timestamps and rotated file names are a function of
 	// the case, not of the wall clock. One second per append; the writer goroutine is waited for
 	// before the clock moves, so every rotation gets a distinct file name.
-	const clockBase = int64(0x00065c0780000000) * 1000 // ns; 2026-09, high timestamp bytes 00 06 5c 07 80
 	verifclock.Set(clockBase)
 	defer verifclock.Real()
 	w, err := wal.NewWriter(&wal.WriterConfig{WALDir: dir, SyncMode: wal.SyncModeAsync, MaxSizeBytes: lc.maxSize, Logger: nop})
@@ -419,9 +420,11 @@ func (h *harness) runLog(lc *logCase) {
 	}
 	var results []res
 	accepted := int64(0)
+	var appAt []int64
 	for i, a := range lc.apps {
 		a := a
 		verifclock.Set(clockBase + int64(i+1)*int64(time.Second))
+		appAt = append(appAt, clockBase+int64(i+1)*int64(time.Second))
 		out := vh.Guard(func() string {
 			var err error
 			switch a.kind {
@@ -472,10 +475,11 @@ func (h *harness) runLog(lc *logCase) {
 	if effMax == 0 {
 		effMax = 100 * 1024 * 1024 // NewWriter's default
 	}
-	c.Op(fmt.Sprintf("new %d", effMax), "ok")
+	c.Op(fmt.Sprintf("new %d %d", effMax, clockBase), "ok")
 	var canon strings.Builder
 	fmt.Fprintf(&canon, "%s max=%d;", lc.name, lc.maxSize)
-	for _, rs := range results {
+	for ri, rs := range results {
+		c.Op(fmt.Sprintf("at %d", appAt[ri]), "ok")
 		fmt.Fprintf(&canon, "%s:%x:%x;", rs.a.kind, rs.a.db, rs.a.payload)
 		opk := "raw"
 		if rs.a.kind == "meta" {
@@ -663,6 +667,106 @@ func (h *harness) runLog(lc *logCase) {
 		}
 	}
 	c.Case(canon.String(), nontriv)
+}
+
+// runBurst: forced rotation while the virtual clock advances by stepNs between appends. The framed
+// bytes are observed only through the directory listing (`files`), because a rotation that re-opens
+// an existing file puts a second header in the middle of it.
+// Monitors (stepNs > 0, i.e. distinct rotation instants — the hypothesis of C06_rotation_named):
+// number of files = rotations + 1, and recovery of the cleanly closed log replays every appended
+// entry exactly once, in order.
+func (h *harness) runBurst(name string, maxSize int64, stepNs int64, apps []app) {
+	c := h.c
+	lc := &logCase{name: name, maxSize: maxSize, apps: apps}
+	h.dict = map[string]decRes{}
+	h.fab = nil
+	dir, err := os.MkdirTemp(scratch, "burst")
+	if err != nil {
+		panic(err)
+	}
+	defer os.RemoveAll(dir)
+	verifclock.Set(clockBase)
+	defer verifclock.Real()
+	w, err := wal.NewWriter(&wal.WriterConfig{WALDir: dir, SyncMode: wal.SyncModeAsync, MaxSizeBytes: maxSize, Logger: nop})
+	if err != nil {
+		panic(err)
+	}
+	c.Op(fmt.Sprintf("new %d %d", maxSize, clockBase), "ok")
+	var pl []placed
+	var canon strings.Builder
+	fmt.Fprintf(&canon, "%s max=%d step=%d;", name, maxSize, stepNs)
+	sz, rotations := int64(7), 0
+	for i, a := range apps {
+		t := clockBase + int64(i+1)*stepNs
+		verifclock.Set(t)
+		var err error
+		if a.kind == "meta" {
+			err = w.AppendRawWithMeta(a.db, a.payload)
+		} else {
+			err = w.AppendRaw(a.payload)
+		}
+		out := "ok"
+		if err != nil {
+			out = "err:" + err.Error()
+		}
+		for atomic.LoadInt64(&w.TotalEntries) < int64(i+1) && err == nil {
+			time.Sleep(20 * time.Microsecond)
+		}
+		_ = w.CurrentFile()
+		c.Op(fmt.Sprintf("at %d", t), "ok")
+		c.Op(fmt.Sprintf("wq %d %s", t/1000, vh.Hex(a.full())), out)
+		fmt.Fprintf(&canon, "%s:%x:%x;", a.kind, a.db, a.payload)
+		if sz += int64(16 + len(a.full())); sz >= maxSize {
+			rotations++
+			sz = 7
+		}
+		p := placed{a: a}
+		db, inner := wal.ParseEnvelope(a.full(), "")
+		if d := h.declare(inner); d.kind != "n" {
+			o := obs{rows: d.kind == "r", tok: d.tok}
+			if !o.rows {
+				o.db = db
+			}
+			p.exp = &o
+		}
+		pl = append(pl, p)
+	}
+	if err := w.Close(); err != nil {
+		panic(err)
+	}
+	names, _ := filepath.Glob(filepath.Join(dir, "*.wal"))
+	sort.Strings(names)
+	var files [][]byte
+	var fh []string
+	for _, n := range names {
+		b, _ := os.ReadFile(n)
+		files = append(files, b)
+		fh = append(fh, vh.Hex(b))
+	}
+	c.Op("files", strings.Join(fh, "|"))
+	c.Tag(fmt.Sprintf("burst:step=%dns", stepNs))
+	for _, f := range files {
+		h.declareCandidates(f)
+		c.Op("base "+vh.Hex(f), fmt.Sprintf("ok len=%d", len(f)))
+		rr := realRead(f)
+		c.Op("r", rr.line)
+		h.reads++
+	}
+	what := "clean"
+	if stepNs == 0 {
+		what = "clean, all rotations at one instant (outside the strictly-increasing-clock hypothesis: model diff only)"
+	}
+	if stepNs > 0 && len(files) != rotations+1 {
+		var bn []string
+		for _, n := range names {
+			bn = append(bn, filepath.Base(n))
+		}
+		c.Fail("rotation-reuses-file:Writer.rotate",
+			fmt.Sprintf("%d size-triggered rotations %dns apart produced %d files instead of %d: a rotation re-opened an existing file (O_APPEND) and wrote a second header into it", rotations, stepNs, len(files), rotations+1),
+			fmt.Sprintf("NewWriter(MaxSizeBytes=%d) at virtual t0=%dns; appends %dns apart: %s; files on disk after Close: %v = %s", maxSize, clockBase, stepNs, canon.String(), bn, strings.Join(fh, "|")))
+	}
+	h.recovery(lc, pl, files, what)
+	c.Case(canon.String(), true)
 }
 
 func (h *harness) recovery(lc *logCase, pl []placed, files [][]byte, what string) {
@@ -868,6 +972,22 @@ func main() {
 	}
 	for _, lc := range corpus {
 		h.runLog(lc)
+	}
+	// ---- (1b) burst rotation: every append (or every second one) rotates, clock steps of 0 ns .. 1 ms
+	burstApps := func(n int) []app {
+		var as []app
+		for i := 0; i < n; i++ {
+			if i%2 == 0 {
+				as = append(as, app{kind: "meta", db: "b", payload: colPayload("m", map[string]interface{}{"v": []interface{}{i}})})
+			} else {
+				as = append(as, app{kind: "raw", payload: mp([]map[string]interface{}{{"r": i}})})
+			}
+		}
+		return as
+	}
+	for _, step := range []int64{0, 1, 1000, 999_000, 1_000_000, 1_000_000_000} {
+		h.runBurst(fmt.Sprintf("burst-each-step-%dns", step), 20, step, burstApps(5))
+		h.runBurst(fmt.Sprintf("burst-pairs-step-%dns", step), 60, step, burstApps(6))
 	}
 	// ---- (2) random logs
 	nLogs := c.N
